@@ -24,16 +24,17 @@ class Rw:
     """Site-specific rewrite. `pat` is a regex when regex=True else a literal. Every
     occurrence (or `count`) is replaced. required=True => missing pattern is a lost anchor."""
 
-    def __init__(self, pat, rep, regex=False, count=0, required=True, why='', rule='R10'):
+    def __init__(self, pat, rep, regex=False, count=0, required=True, why='', rule='R10', balanced=False):
         self.pat, self.rep, self.regex, self.count, self.required, self.why, self.rule = \
             pat, rep, regex, count, required, why, rule
+        self.balanced = balanced
 
 
 class Fn:
     def __init__(self, file, name, impl=None, ret=None, add_params=None, attrs=(), requires=(), ensures=(),
                  decreases=None, loops=None, hints=None, rewrites=(), pre_rewrites=(), loop_kinds=None, chars=('c', 'c_next'),
                  strvars=(), clone_shims=None, int_args=(), external=False, sig=None, rename=None,
-                 no_generic=(), props=(), returns=None, ghost_args=None, strip_paths=None, let_types=None):
+                 no_generic=(), props=(), returns=None, ghost_args=None, strip_paths=None, let_types=None, file_drops=False):
         self.file, self.name, self.impl, self.ret = file, name, impl, ret
         self.add_params, self.attrs = add_params, list(attrs)
         self.requires, self.ensures, self.decreases = list(requires), list(ensures), decreases
@@ -53,6 +54,7 @@ class Fn:
         self.ghost_args = ghost_args or {}
         self.strip_paths = strip_paths
         self.let_types = let_types or {}
+        self.file_drops = file_drops
 
     @property
     def key(self):
@@ -116,6 +118,28 @@ def _mark_lines(src_text, first_line):
 
 def _apply_site_rewrites(text, rws, log, fnkey):
     for rw in rws:
+        if rw.balanced:
+            # the regex ends at an opening brace: the replacement covers everything up to its matching close
+            n = 0
+            while True:
+                m = re.search(rw.pat, text, flags=re.S)
+                if not m:
+                    break
+                ob = m.end() - 1
+                if text[ob] != '{':
+                    raise LostAnchor('%s: balanced rewrite must end at an opening brace: %r' % (fnkey, rw.pat[:60]))
+                toks = lex(text[ob:])
+                cb = ob + toks[match_close(toks, 0)][3]
+                text = text[:m.start()] + m.expand(rw.rep) + text[cb:]
+                n += 1
+                if rw.count and n >= rw.count:
+                    break
+            if n == 0:
+                if rw.required:
+                    raise LostAnchor('%s: site rewrite pattern not found: %r' % (fnkey, rw.pat[:80]))
+                continue
+            log.append({'rule': rw.rule, 'fn': fnkey, 'before': rw.pat[:200] + ' ... }', 'after': rw.rep[:200], 'sites': n, 'why': rw.why})
+            continue
         if rw.regex:
             new, n = re.subn(rw.pat, rw.rep, text, count=rw.count, flags=re.S)
         else:
@@ -181,12 +205,39 @@ def _ghost_args(text, ghost_args, log, self_name):
         if t[0] == 'id' and t[1] in ghost_args and k + 1 < len(toks) and is_p(toks[k + 1], '(') \
                 and not (k > 0 and toks[k - 1][1] == 'fn'):
             c = match_close(toks, k + 1)
-            inner = text[toks[k + 1][3]:toks[c][2]].strip()
+            inner = MARK.sub('', text[toks[k + 1][3]:toks[c][2]]).strip()
             sep = '' if inner == '' or inner.endswith(',') else ', '
             edits.append((toks[c][2], toks[c][2], sep + ghost_args[t[1]]))
     if edits:
         log.append({'rule': 'R8', 'before': 'calls to %s' % ', '.join(sorted(ghost_args)),
                     'after': 'extra ghost argument (erased at run time)', 'sites': len(edits)})
+        text = rules.apply_edits(text, edits)
+    return text
+
+
+def _file_drops(text, log):
+    """R9: make Rust's Drop of a File explicit: for `let [mut] F = vx_file_from_raw_fd(..)` insert `vx_drop_file(F, Tracked(k));`
+    right before the closing brace of the enclosing block (the binding's lexical scope end)."""
+    toks = lex(text)
+    edits = []
+    for k, t in enumerate(toks):
+        if t[0] == 'id' and t[1] == 'vx_file_from_raw_fd' and k >= 2 and is_p(toks[k - 1], '='):
+            name = toks[k - 2][1]
+            # enclosing block: walk forward counting braces
+            depth = 0
+            j = k
+            while j < len(toks):
+                u = toks[j]
+                if u[0] == 'p' and u[1] == '{':
+                    depth += 1
+                elif u[0] == 'p' and u[1] == '}':
+                    if depth == 0:
+                        edits.append((u[2], u[2], 'vx_drop_file(%s, Tracked(k)); ' % name))
+                        break
+                    depth -= 1
+                j += 1
+    if edits:
+        log.append({'rule': 'R9', 'before': 'end of the scope of a File binding', 'after': 'explicit vx_drop_file(f, k) (Drop closes the descriptor)', 'sites': len(edits)})
         text = rules.apply_edits(text, edits)
     return text
 
@@ -205,6 +256,55 @@ def _fmt_clauses(kw, clauses, indent):
         e = ' '.join(x.strip() for x in expr.strip().split('\n'))
         out.append((indent + '    ' + e + ',', lab))
     return out
+
+
+def _resolve_loop_keys(fn, headers):
+    """return a shallow copy of fn whose loops / loop_kinds / hints are keyed by ordinal; 'hdr:<text>' keys are resolved against the
+    loop headers of the current source (a spec for a loop that no longer exists is dropped); __I / __LO / __HI / __V in the clause text
+    stand for that loop's generated index / bound / collection variables."""
+    import copy as _copy
+
+    def find_all(key):
+        sub = key[4:]
+        return [i for i, h in enumerate(headers) if sub in h]
+
+    def find(key):
+        hits = find_all(key)
+        return hits[0] if len(hits) >= 1 else None
+
+    def subst(t, n):
+        return t.replace('__I', '__i%d' % n).replace('__LO', '__lo%d' % n).replace('__HI', '__hi%d' % n).replace('__V', '__v%d' % n)
+
+    if not any(isinstance(k_, str) and k_.startswith('hdr:') for k_ in list(fn.loops) + list(fn.loop_kinds) + list(fn.hints)) \
+            and not any(isinstance(k_, tuple) and isinstance(k_[0], str) for k_ in fn.loop_kinds):
+        return fn
+    f2 = _copy.copy(fn)
+    f2.loops, f2.loop_kinds, f2.hints = {}, {}, {}
+    for key, lp in fn.loops.items():
+        ns = find_all(key) if isinstance(key, str) and key.startswith('hdr:') else [key]
+        for n in ns:
+            l2 = Loop([(a, subst(b, n)) for a, b in lp.invariant], subst(lp.decreases, n) if lp.decreases else None,
+                      [(a, subst(b, n)) for a, b in lp.invariant_except_break], [(a, subst(b, n)) for a, b in lp.ensures], lp.no_auto)
+            f2.loops[n] = l2
+    for key, v in fn.loop_kinds.items():
+        if isinstance(key, tuple) and isinstance(key[0], str) and key[0].startswith('hdr:'):
+            n = find(key[0])
+            if n is not None:
+                f2.loop_kinds[(n, key[1])] = v
+        elif isinstance(key, str) and key.startswith('hdr:'):
+            n = find(key)
+            if n is not None:
+                f2.loop_kinds[n] = v
+        else:
+            f2.loop_kinds[key] = v
+    for key, v in fn.hints.items():
+        m = re.match(r'^(hdr:.*?)\|(body-entry|exit)$', key)
+        if m:
+            for n in find_all(m.group(1)):
+                f2.hints['loop-%d-%s' % (n, m.group(2))] = subst(v, n)
+        else:
+            f2.hints[key] = v
+    return f2
 
 
 def _hint_text(h):
@@ -237,6 +337,11 @@ def gen_fn(fn, g, canary=False):
             text, lg = rules.r_method_shims(text, fn.chars, fn.clone_shims); log += lg
         if 'R5' not in fn.no_generic:
             text, lg = rules.r5_streq(text, fn.strvars, fn.chars); log += lg
+        # loop headers by ordinal (before desugaring) so that loop specs can be keyed by header text: 'hdr:<substring>'
+        _lps, _ltoks = rules.find_loops(MARK.sub('', text))
+        _clean = MARK.sub('', text)
+        headers = [' '.join(_clean[lp['kw_pos']:lp['open_pos']].split()) for lp in _lps]
+        fn = _resolve_loop_keys(fn, headers)
         text, lg, autos = rules.r1_for_desugar(text, fn.loop_kinds); log += lg
     else:
         autos = {}
@@ -249,6 +354,8 @@ def gen_fn(fn, g, canary=False):
                 log.append({'rule': 'R13', 'before': 'let %s = ..' % nm, 'after': 'let %s: %s = ..  (type annotation only)' % (nm, ty), 'sites': n})
                 text = new
     text = _apply_site_rewrites(text, fn.rewrites, log, fn.key)
+    if fn.file_drops:
+        text = _file_drops(text, log)
     for lg in log:
         lg.setdefault('fn', fn.key)
         lg['before'] = MARK.sub('', lg['before'])
@@ -486,6 +593,11 @@ def generate(unit, canary=False, tier='quick'):
         m = re.match(r'^\s*//@TYPE (\S+)\s*$', ln)
         if m:
             gen_type(unit.types[m.group(1)], g)
+            continue
+        m = re.match(r'^(.*?)\s*//@L (\S+)\s*$', ln)
+        if m:
+            g.labels[m.group(2)] = {'fn': 'prelude', 'kind': 'requires', 'line': len(g.lines) + 1}
+            g.add(m.group(1), {'origin': 'contract', 'label': m.group(2), 'fn': None, 'kind': 'requires'})
             continue
         g.add(ln, {'origin': 'prelude'})
     return g
